@@ -32,6 +32,7 @@ type HarnessSpec struct {
 	Final    []string       `json:"final_solvers,omitempty"`
 	Bounds   string         `json:"bounds,omitempty"`
 	Solver   string         `json:"solver,omitempty"`
+	Label    string         `json:"label,omitempty"`
 }
 
 type TierSpec struct {
@@ -346,7 +347,13 @@ func cmdCheck(args []string) {
 		for _, k := range sortedKeys(r.Cuts) {
 			he.Cuts = append(he.Cuts, fmt.Sprintf("%s x%d", k, r.Cuts[k]))
 		}
-		ev.Coverage.Harnesses[r.Name] = he
+		key := r.Name
+		if r.spec.Label != "" {
+			key += "/" + r.spec.Label
+		} else if _, dup := ev.Coverage.Harnesses[key]; dup {
+			key = fmt.Sprintf("%s/%d", key, len(ev.Coverage.Harnesses))
+		}
+		ev.Coverage.Harnesses[key] = he
 		ev.Coverage.States += r.Paths
 		ev.Coverage.Transitions += r.Decisions
 		ev.Coverage.Obligations += r.Obligations
@@ -369,7 +376,7 @@ func cmdCheck(args []string) {
 			}
 		}
 		if r.spec.Bounds != "" {
-			ev.Coverage.Bounds[r.Name] = r.spec.Bounds
+			ev.Coverage.Bounds[key] = r.spec.Bounds
 		}
 	}
 	ev.Coverage.TracesValidated = int64(replayed)
